@@ -2,7 +2,7 @@
 import json
 import os
 
-from ..core import Result, out_bytes, cli
+from ..core import crashed, Result, out_bytes, cli
 from .. import gen, model, ser
 from ..val import veq, clone, drop_nulls, strings_of, has_marker, is_directive_string, walk
 
@@ -375,7 +375,7 @@ def file_check(ctx, case, res, must_fail, outs):
     r = cli([ctx.bin('bkl'), '-f', 'json', name + '.yaml'], cwd=d)
     res.execs += 1
     res.labels.add('via:cli')
-    if r.rc not in (0, 1) or b'panic:' in r.err:
+    if crashed(r.rc, r.err):
         res.violate('crash', 'bkl binary crashed rc=%s %s' % (r.rc, r.err[-200:]), layers=case['layers'])
     elif must_fail:
         if r.rc == 0:
